@@ -72,10 +72,72 @@ func valueFuncName(v ssa.Value) string {
 		return "builtin:" + v.Name()
 	case *ssa.UnOp:
 		if g, ok := v.X.(*ssa.Global); ok {
+			// an injectable clock: a package-level `var now = time.Now` is the clock
+			if f := GlobalInitFunc(g); f != nil && f.Pkg != nil && f.Pkg.Pkg.Path() == "time" && f.Name() == "Now" && g.Name() != "nowTime" {
+				return "time.Now"
+			}
 			return "var:" + Short(g.Pkg.Pkg.Path()) + "." + g.Name()
 		}
 	}
 	return ""
+}
+
+var globalInitCache = map[*ssa.Global]ssa.Value{}
+
+// GlobalInit returns the value a package-level variable is initialised with,
+// when the package initialiser stores to it exactly once and no other function
+// of the package does.
+func GlobalInit(g *ssa.Global) ssa.Value {
+	if v, ok := globalInitCache[g]; ok {
+		return v
+	}
+	var val ssa.Value
+	n := 0
+	if g.Pkg != nil {
+		for _, m := range g.Pkg.Members {
+			fn, ok := m.(*ssa.Function)
+			if !ok {
+				continue
+			}
+			var visit func(f *ssa.Function)
+			visit = func(f *ssa.Function) {
+				for _, b := range f.Blocks {
+					for _, in := range b.Instrs {
+						if st, ok := in.(*ssa.Store); ok && st.Addr == ssa.Value(g) {
+							n++
+							if f.Name() == "init" && f.Parent() == nil {
+								val = st.Val
+							}
+						}
+					}
+				}
+				for _, a := range f.AnonFuncs {
+					visit(a)
+				}
+			}
+			visit(fn)
+		}
+	}
+	if n != 1 {
+		val = nil
+	}
+	globalInitCache[g] = val
+	return val
+}
+
+// GlobalInitFunc: the function a package-level func variable is initialised with.
+func GlobalInitFunc(g *ssa.Global) *ssa.Function {
+	v := GlobalInit(g)
+	for {
+		switch x := v.(type) {
+		case *ssa.ChangeType:
+			v = x.X
+			continue
+		case *ssa.Function:
+			return x
+		}
+		return nil
+	}
 }
 
 func fnObjName(f *ssa.Function) string {
